@@ -27,6 +27,7 @@ type c02Config struct {
 	Separate bool // CDB with per-family prefix-length sets (FBDNS_SEPARATE_MASKLENS)
 	Workers  int
 	RDB      harness.RDBOpts
+	Cache    bool // response cache on (used by C10's cached variants)
 }
 
 var c02Configs = []c02Config{
@@ -133,7 +134,7 @@ func c02Open(text []byte, cfgs []c02Config) ([]c02Opened, func(), error) {
 			cleanup()
 			return nil, nil, fmt.Errorf("%s: compile: %v", cfg.Name, err)
 		}
-		sv, err := harness.OpenServer(path, cfg.B, harness.ServerOpts{})
+		sv, err := harness.OpenServer(path, cfg.B, harness.ServerOpts{Cache: cfg.Cache})
 		if err != nil {
 			cleanup()
 			return nil, nil, fmt.Errorf("%s: load: %v", cfg.Name, err)
